@@ -16,7 +16,7 @@ tail -3 /tmp/sv_$$.mut
 FILES=$(cd $W && git diff --name-only | tr '\n' ' ')
 echo "touched: $FILES"
 if [ -n "$FULL" ]; then
-  (cd $W && timeout 3000 /venv/bin/python -m pytest -q -p no:cacheprovider --timeout=900 --continue-on-collection-errors -x -q 2>&1 | tail -3) 
+  (cd $W && timeout 3000 /venv/bin/python -m pytest -q -p no:cacheprovider --timeout=900 --continue-on-collection-errors 2>&1 | tail -2) 
 fi
 cd /verif && VERIF_REPO=$W ./check $P --tier quick > /tmp/sv_$$.chk 2>&1; C=$?
 grep -E "^VIOLATION|^SUMMARY|^INCONCLUSIVE|^HARNESS" /tmp/sv_$$.chk | cut -c1-260 | head -12
